@@ -85,8 +85,6 @@ func c22FieldClass(st reflect.Type, i int) string {
 	return c22Class(st.Name(), f.Name, c22Gty(f.Type), c22IsNodeName)
 }
 
-func c22Relevant(cls string) bool { return cls != "pos" && cls != "comment" && cls != "resolve" }
-
 // ---------------------------------------------------------------- shallow encoding
 
 func c22Enc(s string) string {
